@@ -34,7 +34,7 @@ use std::sync::Arc;
 
 const F5: &str = "orphan_builtin_types_not_visible";
 const F5B: &str = "builtin_types_not_is_upstream";
-const F18: &str = "orphan_check_size_limit_ambiguity";
+const F20: &str = "orphan_check_ambiguous_taken_for_allowed";
 /// a size limit no generated type reaches
 const WIDE: usize = 100_000;
 
@@ -323,7 +323,8 @@ fn one_program(text: &str, spec: Option<(bool, bool)>, default_lines: bool, out:
     };
     let rec = direct(SolverChoice::recursive_default());
     // the same solvers with size limits no type of the run reaches (the default limits, 10 and 30,
-    // make the solvers answer `Ambiguous` for closed goals over larger types: finding F18)
+    // make the solvers answer `Ambiguous` for closed goals over larger types; before the repair of
+    // F20 `perform_orphan_check` took that for "allowed")
     let slg_wide = direct(SolverChoice::slg(WIDE, None));
     let rec_wide = direct(SolverChoice::recursive(WIDE, 100));
     let (adts, traits) = enc_flags(&program);
@@ -381,9 +382,17 @@ fn one_program(text: &str, spec: Option<(bool, bool)>, default_lines: bool, out:
             if wide {
                 wide_ok = false;
             }
+            if !wide && wide_ok && !real {
+                // the goal exceeds the solver's default size limit, is truncated and answered
+                // Ambiguous; since the repair of F20 that is (conservatively) a rejection.  A search
+                // cut off at max_size is documented behaviour: counted, not a failure.
+                out.count(&format!("dropped_{}_default_size_limit", name));
+                continue;
+            }
             let classifier = if !wide && wide_ok {
-                // the same solver decides this impl as the rules say once its size limit is out of the way
-                F18
+                // accepted at the default limits, rejected (as the rules say) once the size limit
+                // is out of the way: an Ambiguous answer was taken for a proof
+                F20
             } else if builtin && !real {
                 F5
             } else if real {
